@@ -54,42 +54,46 @@ theorem ends_nl_all (cfg : RCfg) :
   all_goals intros
   all_goals simp only [renderBlock, renderBlocks, renderItems]
   all_goals (try (first | exact NlOrEmpty.nil | exact nl_snoc _))
-  case case5 =>
+  case case6 =>
     split
     · rw [List.append_nil]
       exact nl_append_right _ (by decide)
     · exact nl_append_right _ (by simp [List.getLast?_append])
   case case2 ih => exact ih
-  case case3 ih =>
+  case case3 hE =>
+    simp only [hE, if_true]
+    exact nl_snoc _
+  case case4 hE ih =>
+    simp only [hE, if_false]
     refine NlOrEmpty.append ?_ ih
     split
     · exact NlOrEmpty.nil
     · split
       · exact NlOrEmpty.nil
       · exact nl_snoc _
-  case case8 => exact nl_append_right _ (by decide)
-  case case9 h =>
+  case case9 => exact nl_append_right _ (by decide)
+  case case10 h =>
     rename_i st level cs sx r0 r
     have hh : ((unbreak (renderInlines cfg true [] cs).1).getLast? == some '\\') = true := h
     simp only [hh, if_true]
     right; simp [List.getLast?_append]
-  case case10 h =>
+  case case11 h =>
     rename_i st level cs sx r0 r
     have hh : ((unbreak (renderInlines cfg true [] cs).1).getLast? == some '\\') = false := by simpa using h
     simp only [hh, Bool.false_eq_true, if_false]
     right
     simp only [List.getLast?_append]
     rfl
-  case case11 h => simp only [h, if_true]; exact NlOrEmpty.nil
-  case case12 h =>
+  case case12 h => simp only [h, if_true]; exact NlOrEmpty.nil
+  case case13 h =>
     rename_i st
     have hh : st.skipBlank = false := by simpa using h
     simp only [hh, Bool.false_eq_true, if_false]
     split
     · right; rfl
     · exact nl_snoc _
-  case case14 ih => right; simp [List.getLast?_append]
-  case case15 =>
+  case case15 ih => right; simp [List.getLast?_append]
+  case case16 =>
     rename_i st head delims rows
     have hd : NlOrEmpty (st.snd ++ ("| ".toList ++ joinWith " | ".toList (delims.map normalizeDelim) ++ " |\n".toList)) :=
       nl_append_right _ (by
@@ -99,7 +103,7 @@ theorem ends_nl_all (cfg : RCfg) :
     have h1 : NlOrEmpty (st.pfx ++ rowLine (renderRow cfg st.acc head).1) := nl_append_right _ (rowLine_nl _)
     have := (h1.append hd).append (renderRows_nl cfg st.snd rows (renderRow cfg st.acc head).2)
     simpa [List.append_assoc] using this
-  case case17 ih1 ih2 => first | exact ih1.append ih2 | exact ih2.append ih1
-  case case19 ih1 ih2 => first | exact ih1.append ih2 | exact ih2.append ih1
+  case case18 ih1 ih2 => first | exact ih1.append ih2 | exact ih2.append ih1
+  case case20 ih1 ih2 => first | exact ih1.append ih2 | exact ih2.append ih1
 
 end FM
